@@ -9,6 +9,7 @@ mod c20;
 mod parse;
 mod print;
 mod unordered;
+mod object;
 
 use common::Args;
 
@@ -26,6 +27,7 @@ fn main() {
         "c13" => (print::generate_layout, print::eval_c13),
         "c08" => (print::generate_c08, print::eval_c08),
         "c15" => (unordered::generate, unordered::eval),
+        "c06" => (object::generate, object::eval),
         other => {
             eprintln!("unknown family {other}");
             std::process::exit(2);
